@@ -319,6 +319,20 @@ def mrg(units, R):
     _mrg_pass(u, roles, needs_object, R)
 
 
+def _family_name(c):
+    """callee name; for a dispatch through a constant function table, one of its targets when they all are member removers,
+    all member setters, or all member look-ups (the case-sensitive and the case-folding variant of one operation)"""
+    cn = callee_name(c)
+    if cn is not None or not c.get('targets'):
+        return cn
+    tg = c['targets']
+    for fam in (MEMBER_REMOVERS, MEMBER_SETTERS, OBJECT_MEMBER_OPS,
+                {'get_object_item', 'cJSON_GetObjectItem', 'cJSON_GetObjectItemCaseSensitive'}):
+        if all(t in fam for t in tg):
+            return tg[0]
+    return None
+
+
 def _mrg_pass(u, roles, needs_object, R):
     from .common import guarded_by
     from ..dataflow import solve
@@ -333,7 +347,7 @@ def _mrg_pass(u, roles, needs_object, R):
         names = {d['d']: d['n'] for d in list(fn.params) + list(fn.locals())}
         # MRG2
         for c in fn.calls():
-            cn = callee_name(c)
+            cn = _family_name(c)
             if cn not in MEMBER_REMOVERS and cn not in MEMBER_SETTERS:
                 continue
             if not c['args'] or _root_var(c['args'][0]) is None or var.get(_root_var(c['args'][0])) == 'P':
@@ -416,7 +430,7 @@ def _mrg_pass(u, roles, needs_object, R):
                  'instead of deleting (RFC 7396: an object patch is merged member by member)' % (a['n'], a['n']),
                  key='dup:%s' % a['n'])
         for c in fn.calls():
-            cn = callee_name(c)
+            cn = _family_name(c)
             if not c['args']:
                 continue
             a = strip_casts(c['args'][0])
@@ -729,11 +743,16 @@ def gen1(units, R):
         raise AnalysisBroken('GEN1: patch generation entry points not found')
     n = 0
     gens = {}
-    for ent in entries:
-        docs = [p['d'] for p in ent.params[:2]]
-        for c in ent.calls():
+    work = [(ent, [p['d'] for p in ent.params[:2]]) for ent in entries]
+    visited = set()
+    while work:
+        F, docs = work.pop()
+        if F.name in visited:
+            continue
+        visited.add(F.name)
+        for c in F.calls():
             h = u.functions.get(callee_name(c))
-            if h is None or not h.static or not any(callee_name(x) == h.name for x in h.calls()):
+            if h is None or not h.static or h.body is None:
                 continue
             roles = {}
             for p, a in zip(h.params, c['args']):
@@ -742,8 +761,14 @@ def gen1(units, R):
                     roles[p['d']] = 'doc'
                 elif a0.get('k') == 'ref' and a0.get('dk') == 'local' and u.ty(p['ty'])['c'] == 'ptr':
                     roles[p['d']] = 'patches'
-            if list(roles.values()).count('doc') == 2 and 'patches' in roles.values():
-                gens[h.name] = (h, roles)
+            if list(roles.values()).count('doc') != 2:
+                continue
+            if any(callee_name(x) == h.name for x in h.calls()):
+                if 'patches' in roles.values():
+                    gens[h.name] = (h, roles)
+            else:
+                # a helper between the entry points and the generator (shared body of the two entry points)
+                work.append((h, [d for d, r in roles.items() if r == 'doc']))
     if not gens:
         raise AnalysisBroken('GEN1: no recursive generator receives the two documents and the patch array')
     for (h, roles) in gens.values():
@@ -791,6 +816,23 @@ def gen1(units, R):
             n += 1
             if refs and all(x['d'] in fresh for x in refs):
                 R.ob('GEN1', h, e, 'branch on %s is the NULL test of a fresh allocation' % expr_str(e)[:50], True, 'allocation failure', key='alloc:%s' % expr_str(e)[:40])
+                continue
+            # a defensive NULL test of a pointer parameter that the function never assigns: what callers pass is their business
+            # (every call site hands over a string literal, a buffer it just filled or its own parameter), not a budget
+            e1 = e
+            while e1.get('k') == 'un' and e1['op'] == '!':
+                e1 = strip_casts(e1['e'])
+            tested = None
+            if e1.get('k') == 'ref':
+                tested = e1
+            elif e1.get('k') == 'bin' and e1['op'] in ('==', '!='):
+                for (x, y) in ((e1['l'], e1['r']), (e1['r'], e1['l'])):
+                    if is_null_const(y) and strip_casts(x).get('k') == 'ref':
+                        tested = strip_casts(x)
+            if tested is not None and tested.get('dk') == 'param' and u.ty(tested.get('ty0', tested['ty']))['c'] == 'ptr' and \
+                    not any(strip_casts(a['l']).get('k') == 'ref' and strip_casts(a['l'])['d'] == tested['d'] for a in assignments(h)):
+                R.ob('GEN1', h, e, 'branch on %s is a defensive NULL test of a parameter' % expr_str(e)[:50], True,
+                     'not a value that varies with the documents or the recursion', key='nullparam:%s' % expr_str(e)[:40])
                 continue
             silent = []
             loud = []
